@@ -11,7 +11,11 @@ Follows transport.go / protocol/conn.go / protocol/roundtrip.go:
   * `Event.done`     ↔ `roundTrip` returned inside `run`:
                          `ok`      — `ReadResponse` consumed one whole frame (`discardAll`) and its
                                      correlation id equals the one written (`protocol.RoundTrip`);
-                         `errKeep` — `protocol.ErrNoRecord`: the request could not be encoded, nothing was written, conn kept;
+                         `errKeep` — the exchange is over and NO response is due, the conn is kept: `protocol.ErrNoRecord` (the
+                                     request could not be encoded, nothing was written), or a request that has no response
+                                     (produce with RequiredAcks = 0) written WHOLE — `protocol.RoundTrip` returns (nil, nil)
+                                     only after `WriteRequest` succeeded (a failed write is `err`; seed C06-m10 swapped the
+                                     two tests and a connection left in the middle of a frame went back to the pool);
                          `err`     — anything else (timeout, EOF, malformed, id mismatch): the loop breaks.
   * `Event.release`  ↔ `(*connGroup).releaseConn` (group mutex): pushed on `idleConns` unless the group is closed.
   * `Event.exit`     ↔ `run` returns (deferred `pc.Close()`).
